@@ -23,6 +23,21 @@ CHECKS = {
             "Trusted: vp/ref/forms.py (jets, chain rule), vp/ref/geo.py, vp/ref/bspl.py, numpy leggauss. Boundary normals "
             "assume orientation-preserving maps (documented precondition).",
             "DESIGN.md section 2, C01"),
+    "C20": ("fault_enumeration",
+            "enumeration of every reachable damage class of every cache artefact (fault model derived by strace from a cold "
+            "compile of the current tree) + Hypothesis-generated kill times and race schedules; oracle = a fresh process "
+            "obtains a correct assembler with exit status 0",
+            "One cold compile is traced (strace -f) to learn which cache artefacts are written in place and which arrive "
+            "atomically by rename/link; for every artefact every reachable damage (deleted, empty, header-only, 10%/30%/half, "
+            "all-but-last-byte, same-length garbage, leftover partial build directory), singly and in pairs across restarts, "
+            "is injected into a copy of the cache and the form is requested twice in fresh sub-processes: exit status 0 (a "
+            "signal exit is the violation the property names), the matrix equals the undamaged run bit for bit and the "
+            "independent reference. Compiling processes (or their process groups) are SIGKILLed at generated times, and "
+            "2..8 processes race on the same / distinct forms from an empty cache with generated start offsets; a shared "
+            "object that a process has loaded must never change afterwards. States the tree cannot produce are not "
+            "injected (unknown never means in-place).",
+            "Kernel-level torn writes / power loss are outside the model; kill times and interleavings are sampled.",
+            "DESIGN.md section 2, C20"),
     "C02": ("exploration",
             "Hypothesis-generated knot vectors/points/derivative orders + exhaustive breakpoint sweep, compared with "
             "Cox-de Boor in exact rational arithmetic (condition-aware rounding bound)",
@@ -124,6 +139,20 @@ CHECKS = {
             "sub-domain; not a proof.",
             "Trusted: numpy dense algebra, vp/ref/bspl.py, vp/ref/c10_ref.py.",
             "DESIGN.md section 2, C10"),
+    "C11": ("exploration",
+            "Hypothesis-generated matrices / index lists / sweeps and hierarchical spaces from generated refinement "
+            "histories; oracle = text-book Gauss-Seidel and a dense text-book local multigrid V-cycle written in the "
+            "harness, fixed-point and energy-norm invariants, replay of the stopping rules",
+            "Sparse and dense Gauss-Seidel (forward, backward, symmetric, restricted to unordered index lists, several "
+            "sweeps, CSR/CSC/COO with explicit zeros and unsorted indices) are compared with the coordinate-wise text-book "
+            "update; exact solutions are fixed points; SPD energy errors never increase. For generated hierarchical spaces "
+            "(HB/THB, disparity inf/1/2, bdspecs None/[]/faces) and all 4 strategies x 5 smoothers: smoothing sets contain "
+            "the new dofs and no Dirichlet dof, the exact discrete solution is a fixed point of local_mg_step, the cycle "
+            "equals a dense text-book V-cycle, the energy error does not increase; iterative_solve / solve_hmultigrid "
+            "stopping rules are replayed step by step; twogrid accepts list/array/None starting vectors and converges on "
+            "SPD problems with nested prolongations. Sampling, not proof.",
+            "Trusted: vp/ref/c11_ref.py, vp/ref/hier.py. The system matrices are built by the harness's own quadrature.",
+            "DESIGN.md section 2, C11"),
     "C12": ("exploration",
             "finite exhaustive check of rooted-tree order conditions in exact rationals for the 12 shipped tableaux + "
             "Hypothesis-generated problems/tableaux/driver arguments against exact dense stage equations and a recording "
